@@ -11,27 +11,29 @@ Status (see props/C20.json):
 import YouVerif.C20.Proofs
 import YouVerif.C20.ProofsWState
 import YouVerif.C20.ProofsS
+import YouVerif.C20.ProofsP4
 namespace YouVerif.C20.Props
 open YouVerif.C20
 
 /-! ## the invariant -/
 
-/-- The pool invariant: per-account clauses (`AllI` = `AcctJ` for every account + virtual-nonce clause) and the
+/-- The pool invariant: per-account clauses (`AllI` = `AcctJ` for every account + virtual-nonce clause), the uint64
+bound on state nonces (an assumption about the chain state the pool reads, kept by every well-formed reset) and the
 global index clauses. -/
 structure Inv (s : State) : Prop where
   accounts : AllI s
+  /-- state nonces fit a uint64 (`StateDB.GetNonce`); the strict `Filter` starts its minimum search at `MaxUint64` -/
+  nonceBound : NB s
   allNodup : s.all.Nodup
   /-- `all` is exactly the union of pending and queued -/
   allUnion : ∀ t, t ∈ s.all ↔ (t ∈ (s.acct t.sender).pending.txs ∨ t ∈ (s.acct t.sender).queue.txs)
   /-- every pooled transaction has a (live) entry in the priced heap -/
   pricedCovers : ∀ t ∈ s.all, t ∈ s.priced
 
-/-- FULL STATEMENT (not proved as a whole; sampled by correspondence + the implementation-level oracle after every op):
-every operation preserves the invariant.  PROVED parts: the structural clauses for every operation
-(`structure_invariant`, `structure_reachable`, `never_pending_and_queued`) and the shape clauses after the
-demotion run of every reset (`demote_establishes_shape`).  Still open: the shape / virtual-nonce clauses across the
-non-reset operations and the truncation steps, and the global `all` / `priced` clauses. -/
-def pool_invariant_statement : Prop := ∀ (s : State) (op : Op), Inv s → Inv (step s op).1
+/-- FULL STATEMENT: every well-formed operation (`Op.WF`: the state nonces a reset installs fit a uint64) preserves the
+invariant.  PROVED parts: all per-account clauses and the nonce bound (`accounts_invariant`); the structural clauses
+(`structure_invariant`).  Still open here: the global `all` / `priced` clauses. -/
+def pool_invariant_statement : Prop := ∀ (s : State) (op : Op), op.WF → Inv s → Inv (step s op).1
 
 /-- the limits in the form the code enforces them, after an operation that ends with a reorg run -/
 def CapsAfterReorg (s : State) : Prop :=
@@ -44,22 +46,91 @@ def caps_after_reorg_statement : Prop :=
   ∀ (s : State) (op : Op), Inv s → (match op with | .add .. | .reset .. | .promote .. => True | _ => False) →
     CapsAfterReorg (step s op).1
 
-/-- A freshly created pool satisfies the invariant. -/
-theorem init_invariant (cfg : Config) (pl gl : Nat) (accts : List (Nat × Nat)) : Inv (init cfg pl gl accts) := by
+theorem allI_init (cfg : Config) (pl gl : Nat) (accts : List (Nat × Nat)) : AllI (init cfg pl gl accts) := by
   have hac : ∀ a, (((init cfg pl gl accts).acct a).pending.txs = [] ∧ ((init cfg pl gl accts).acct a).queue.txs = [] ∧
       ((init cfg pl gl accts).acct a).pn = none ∧ ((init cfg pl gl accts).acct a).beat = 0) := by
     intro a
     simp only [State.acct, init, List.getD_eq_getElem?_getD, List.getElem?_map]
     cases accts[a]? <;> simp
-  refine ⟨⟨fun a => ?_, fun b => ?_⟩, by simp [init], ?_, by simp [init]⟩
+  refine ⟨fun a => ?_, fun b => ?_⟩
   · obtain ⟨h1, h2, _, h4⟩ := hac a
     constructor <;> simp [h1, h2, h4, Sorted] <;> exact .nil _
   · obtain ⟨h1, _, h3, _⟩ := hac b
     simp [PN, Account.pnGet, h1, h3]
-  · intro t
-    obtain ⟨h1, h2, _, _⟩ := hac t.sender
-    rw [h1, h2]
-    simp [init]
+
+theorem nb_init (cfg : Config) (pl gl : Nat) (accts : List (Nat × Nat)) (hacc : ∀ p ∈ accts, p.1 ≤ 2 ^ 64 - 1) :
+    NB (init cfg pl gl accts) := by
+  intro b
+  simp only [State.acct, init, List.getD_eq_getElem?_getD, List.getElem?_map]
+  cases hb : accts[b]? with
+  | none => simp
+  | some p => simpa using hacc p (List.mem_of_getElem? hb)
+
+/-- A freshly created pool (over a chain state whose nonces fit a uint64) satisfies the invariant. -/
+theorem init_invariant (cfg : Config) (pl gl : Nat) (accts : List (Nat × Nat)) (hacc : ∀ p ∈ accts, p.1 ≤ 2 ^ 64 - 1) :
+    Inv (init cfg pl gl accts) := by
+  refine ⟨allI_init cfg pl gl accts, nb_init cfg pl gl accts hacc, by simp [init], ?_, by simp [init]⟩
+  intro t
+  have h1 := ((allI_init cfg pl gl accts).1 t.sender)
+  have hac : ((init cfg pl gl accts).acct t.sender).pending.txs = [] ∧ ((init cfg pl gl accts).acct t.sender).queue.txs = [] := by
+    simp only [State.acct, init, List.getD_eq_getElem?_getD, List.getElem?_map]
+    cases accts[t.sender]? <;> simp
+  rw [hac.1, hac.2]
+  simp [init]
+
+/-- induction over operation sequences with a side condition on every operation -/
+theorem run_induction (P : State → Prop) (hstep : ∀ s op, op.WF → P s → P (step s op).1) (ops : List Op)
+    (hops : ∀ op ∈ ops, op.WF) (s : State) (h : P s) : P (run s ops) := by
+  unfold run
+  induction ops generalizing s with
+  | nil => exact h
+  | cons op rest ih =>
+    simp only [List.foldl_cons]
+    exact ih (fun o ho => hops o (by simp [ho])) _ (hstep s op (hops op (by simp)) h)
+
+/-! ## the per-account clauses (shape, affordability, virtual nonce), for every operation and every reachable state -/
+
+/-- CLAUSES (all ops): every well-formed operation — add local/remote incl. replacement and underpriced eviction,
+reset with reinjection, promotion run, `removeTx`, `SetGasPrice`, lifetime eviction, with the truncation steps and
+the nonce refresh that close a reorg run — preserves, for EVERY account: pending gap-free from the state nonce, payable
+and within the block gas limit, every queued transaction strictly above the pending run, virtual nonce = state nonce +
+number of pending (with the structural clauses of `AcctJ`), and the uint64 bound on state nonces. -/
+theorem accounts_invariant (s : State) (op : Op) (hwf : op.WF) (h : AllI s) (hnb : NB s) :
+    AllI (step s op).1 ∧ NB (step s op).1 := h.step hnb op hwf
+
+/-- ... hence they hold in every state reachable from a fresh pool by any sequence of well-formed operations. -/
+theorem accounts_reachable (cfg : Config) (pl gl : Nat) (accts : List (Nat × Nat)) (ops : List Op)
+    (hacc : ∀ p ∈ accts, p.1 ≤ 2 ^ 64 - 1) (hops : ∀ op ∈ ops, op.WF) :
+    AllI (run (init cfg pl gl accts) ops) ∧ NB (run (init cfg pl gl accts) ops) :=
+  run_induction (fun s => AllI s ∧ NB s) (fun s op hwf h => accounts_invariant s op hwf h.1 h.2) ops hops _
+    ⟨allI_init cfg pl gl accts, nb_init cfg pl gl accts hacc⟩
+
+/-- The property's per-account clauses, spelled out for every reachable state: the pending nonces of an account are
+exactly `nonce, nonce+1, …`; every pending transaction is payable from the balance and fits the block gas limit; every
+queued transaction lies strictly above every pending one and not below the state nonce; the nonce the pool reports
+(`Nonce(addr)`) is the state nonce plus the number of pending transactions. -/
+theorem reachable_account_shape (cfg : Config) (pl gl : Nat) (accts : List (Nat × Nat)) (ops : List Op)
+    (hacc : ∀ p ∈ accts, p.1 ≤ 2 ^ 64 - 1) (hops : ∀ op ∈ ops, op.WF) (a : Nat) :
+    let s := run (init cfg pl gl accts) ops
+    (s.acct a).pending.txs.map (·.nonce) = List.range' (s.acct a).nonce (s.acct a).pending.txs.length ∧
+    (∀ t ∈ (s.acct a).pending.txs, t.cost ≤ (s.acct a).balance ∧ t.gas ≤ s.maxGas) ∧
+    (∀ q ∈ (s.acct a).queue.txs, (s.acct a).nonce + (s.acct a).pending.txs.length ≤ q.nonce) ∧
+    (∀ p ∈ (s.acct a).pending.txs, ∀ q ∈ (s.acct a).queue.txs, p.nonce < q.nonce) ∧
+    (s.acct a).pnGet = (s.acct a).nonce + (s.acct a).pending.txs.length := by
+  intro s
+  have h := accounts_reachable cfg pl gl accts ops hacc hops
+  have hA := h.1.1 a
+  refine ⟨hA.pChain.length_eq, hA.pAfford, hA.qAbove, fun p hp q hq => ?_, h.1.2 a⟩
+  have := hA.pChain.bounds p hp
+  have := hA.qAbove q hq
+  omega
+
+/-- CLAUSE (c): no operation changes the length of the account table (so the account lists a reorg run walks,
+computed before the reset, cover every account afterwards). -/
+theorem table_length_invariant (s : State) (op : Op) (h : AllW s) : (step s op).1.n = s.n := step_n h op
+
+/-- non-vacuity of `Op.WF`: a reset that installs nonce 5 for account 0 is well-formed -/
+example : (Op.reset [] .normal 100000 [(0, 5, 1000)] [] []).WF := by simp [Op.WF]
 
 /-! ## the structural clauses, for every operation and every reachable state -/
 
